@@ -48,28 +48,33 @@ def run(chk):
     chk.notes["rule"] = ("every settable property (reflection) of every shape class x positive targets cur*2^k x general-position off-origin base shapes "
                          "(also tilted polygons); bad targets 0, -1, nan; non-trivial = every (class, property, target) triple on an off-origin shape")
     for cls in Z.CLASSES:
-        for tilt in ((False, True) if cls in ("Polygon", "ConvexPolygon") else (False,)):
-            base, _ = Z.make(cls, tilt=tilt)
+        variants = [(False, False)]
+        if cls in ("Polygon", "ConvexPolygon"):
+            variants.append((True, False))
+        if cls == "Polygon":
+            variants += [(False, True), (True, True)]      # also listed clockwise about an explicit normal (signed_area < 0)
+        for tilt, opp in variants:
+            base, _ = Z.make(cls, tilt=tilt, opposing=opp)
             for prop in Z.settable_properties(base):
                 if prop in ("centroid", "center"):
-                    translation(chk, cls, prop, tilt, rng)
+                    translation(chk, cls, prop, tilt, rng, opp)
                     continue
                 st, cur = C.excname(getattr, base, prop)
                 if st != "ok":
                     chk.count("getter-undefined:%s" % st)
-                    bad_targets(chk, cls, prop, tilt, allow_other=st)
+                    bad_targets(chk, cls, prop, tilt, allow_other=st, opp=opp)
                     continue
                 cur = float(cur)
                 direct = prop in ("a", "b", "c") or (prop == "radius" and cls in ("ConvexSpheropolygon", "ConvexSpheropolyhedron"))
                 for k in ks:
-                    obj, _ = Z.make(cls, tilt=tilt)
+                    obj, _ = Z.make(cls, tilt=tilt, opposing=opp)
                     tgt = cur * 2.0 ** k
                     p0, s0, c0 = geometry(obj)
                     iq0 = C.excname(getattr, obj, "iq") if hasattr(type(obj), "iq") else ("na", None)
                     st, _ = C.excname(setattr, obj, prop, tgt)
-                    chk.case([cls, prop, k, tilt], True)
+                    chk.case([cls, prop, k, tilt, opp], True)
                     chk.count("cls:" + cls)
-                    desc = dict(cls=cls, prop=prop, target=tgt, current=cur, tilted=tilt)
+                    desc = dict(cls=cls, prop=prop, target=tgt, current=cur, tilted=tilt, clockwise_about_normal=opp)
                     if st != "ok":
                         chk.violation("setter-raised", dict(desc, error=st)); continue
                     got = float(getattr(obj, prop))
@@ -114,7 +119,7 @@ def run(chk):
                         if st2 != "ok" or abs(float(iq1) - float(iq0[1])) > 1e-7 * abs(float(iq0[1])):
                             chk.violation("dimensionless-descriptor-changed", dict(desc, iq_before=float(iq0[1]), iq_after=None if st2 != "ok" else float(iq1)))
                     chk.sample(dict(cls=cls, prop=prop, target=tgt, readback=got, scale=s))
-                bad_targets(chk, cls, prop, tilt)
+                bad_targets(chk, cls, prop, tilt, opp=opp)
     if KNOWN_POLYTRI:
         if chk.is_known("polytri-absolute-thresholds"):
             chk.known_finding("polytri-absolute-thresholds", "after rescaling a Polyhedron to ~1e-3 of its size, centroid/inertia raise ValueError('Triangulation failed') (polytri absolute thresholds)")
@@ -122,10 +127,10 @@ def run(chk):
             chk.violation("centroid-raised-after-rescale", dict(classes=sorted(set(KNOWN_POLYTRI))))
 
 
-def bad_targets(chk, cls, prop, tilt, allow_other=None):
+def bad_targets(chk, cls, prop, tilt, allow_other=None, opp=False):
     nonneg = prop == "radius" and cls in ("ConvexSpheropolygon", "ConvexSpheropolyhedron")
     for bad in ([-1.0, float("nan")] if nonneg else [0.0, -1.0, float("nan")]):
-        obj, _ = Z.make(cls, tilt=tilt)
+        obj, _ = Z.make(cls, tilt=tilt, opposing=opp)
         snap = Z.state_snapshot(obj)
         st, _ = C.excname(setattr, obj, prop, bad)
         chk.case([cls, prop, "bad", str(bad), tilt], True)
@@ -140,9 +145,9 @@ def bad_targets(chk, cls, prop, tilt, allow_other=None):
             chk.violation("bad-target-changed-state", dict(desc, attribute=why, error=st))
 
 
-def translation(chk, cls, prop, tilt, rng):
+def translation(chk, cls, prop, tilt, rng, opp):
     for _ in range(2):
-        obj, _ = Z.make(cls, tilt=tilt)
+        obj, _ = Z.make(cls, tilt=tilt, opposing=opp)
         p0, s0, c0 = geometry(obj)
         tgt = np.array([float(x) for x in rng.integers(-8, 9, 3)]) / 2
         st, _ = C.excname(setattr, obj, prop, tgt.copy())
@@ -163,7 +168,7 @@ def translation(chk, cls, prop, tilt, rng):
 
 def replay(chk, rep):
     d = rep["detail"]
-    obj, _ = Z.make(d["cls"], tilt=d.get("tilted", False))
+    obj, _ = Z.make(d["cls"], tilt=d.get("tilted", False), opposing=d.get("clockwise_about_normal", False))
     t = d["target"]
     t = float(t) if isinstance(t, str) else t
     st, _ = C.excname(setattr, obj, d["prop"], t)
